@@ -273,6 +273,18 @@ theorem retry_fixpoint_partial (hlaw : DurLaw) (w : Json) (x : RetryV) (hU : ret
   refine ⟨_, retry_readback x hd, ?_⟩
   simp [retryM]
 
+/-! ### mirror wrappers (KeepAlive, HealthCheck, …): an embedded generic config whose members are copied into
+`json:"-"` fields by `UnmarshalJSON` and copied back by `MarshalJSON` -/
+
+/-- `U w = (decode w, proj)`, `M (c, d) = encode (put d c)` with `put (proj c) c = c`: the pair is at a fixpoint after the
+first pass, for every generic shape -/
+theorem mirror_fixpoint {δ : Type} (sh : Shape) (hk : keysOK sh = true) (proj : CVal → δ) (put : δ → CVal → CVal)
+    (hput : ∀ c, put (proj c) c = c) (w : Json) (c : CVal) (h : decode sh w = some c) :
+    ∃ c', decode sh (encode sh (put (proj c) c)) = some c' ∧ encode sh (put (proj c') c') = encode sh (put (proj c) c) := by
+  have hw := dw sh hk w c h
+  rw [hput]
+  exact ⟨norm sh c, rt sh hk c hw, by rw [hput]; exact en sh c hw⟩
+
 /-- **RetryPolicy**: the fixpoint law, unconditionally -/
 theorem retry_fixpoint (w : Json) (x : RetryV) (hU : retryU w = some x) :
     ∃ y, retryU (retryM x) = some y ∧ retryM y = retryM x := retry_fixpoint_partial durLaw w x hU
